@@ -74,8 +74,10 @@ class GenProxy:
         return self._g.aclose()
 
 
-def make_genfunc(prog, made, st):
+def make_genfunc(prog, made, st, again=None):
+    """`again`: what a generator that yields a second time yields (the value again, or nothing at all)."""
     pre, h, post = prog["pre"], prog["h"], prog["post"]
+    again = VALUE if again is None else again[0]
 
     def mk(cls):
         e = cls()
@@ -114,6 +116,11 @@ def make_genfunc(prog, made, st):
                 yield VALUE
             except BaseException:  # noqa: BLE001
                 raise mk(NewError) from None
+        elif h == "raisenewfrom":
+            try:
+                yield VALUE
+            except BaseException as exc:  # noqa: BLE001
+                raise mk(NewError) from exc
         elif h == "raisesametype":
             try:
                 yield VALUE
@@ -128,7 +135,7 @@ def make_genfunc(prog, made, st):
             try:
                 yield VALUE
             except BaseException:  # noqa: BLE001
-                yield VALUE
+                yield again
         elif h == "raisesai":
             try:
                 yield VALUE
@@ -145,7 +152,7 @@ def make_genfunc(prog, made, st):
             except BaseException as exc:  # noqa: BLE001
                 raise mk(ChainedRuntimeError) from exc
         if post == "yield":
-            yield VALUE
+            yield again
         elif post == "raise":
             raise mk(PostError)
 
@@ -167,10 +174,10 @@ def eq_class(o):
     return _EQ[o]
 
 
-def run_case(case, factory_of, subclass=False, eq=False):
+def run_case(case, factory_of, subclass=False, eq=False, bare=False):
     prog, o = case["prog"], case["o"]
     made, st = [], {"anext": 0, "athrow": 0, "aclose": 0}
-    genfunc = make_genfunc(prog, made, st)
+    genfunc = make_genfunc(prog, made, st, again=(None,) if bare else None)
     cmf = factory_of(genfunc)
     blockexc = (eq_class(o) if eq else SUBCLASS[o] if subclass and o in SUBCLASS else BLOCK[o])() if o != "normal" else None
     obs = {"bound": None, "entered": False}
@@ -269,6 +276,10 @@ def check(prop, tier, seed, into=None):
                 got_sub = run_case(c, contextlib.asynccontextmanager, subclass=True)
                 if prog_label(got_sub, c) != prog_label(got, c):
                     mach.append({"case": {"prog": c["prog"], "o": c["o"] + "(subclass)"}, "expected": got, "twin": got_sub})
+            if c["prog"]["h"] == "yieldagain" or c["prog"]["post"] == "yield":    # a second yield is one, with or without a value
+                got_bare = run_case(c, contextlib.asynccontextmanager, bare=True)
+                if prog_label(got_bare, c) != prog_label(got, c):
+                    mach.append({"case": {"prog": c["prog"], "o": c["o"] + "(bare second yield)"}, "expected": got, "twin": got_bare})
             if c["o"] != "normal":      # ... and so does a class whose instances all compare equal
                 got_eq = run_case(c, contextlib.asynccontextmanager, eq=True)
                 if prog_label(got_eq, c) != prog_label(got, c):
@@ -284,6 +295,8 @@ def check(prop, tier, seed, into=None):
             #  block outcomes of C13 -- and a derived class, which the variant needs, takes the contextlib path)
             if c["o"] not in ("normal", "GeneratorExit"):
                 runs.append(("(instances-compare-equal)", run_case(c, L.contextmanager, eq=True)))
+            if c["prog"]["h"] == "yieldagain" or c["prog"]["post"] == "yield":
+                runs.append(("(bare second yield)", run_case(c, L.contextmanager, bare=True)))
             n["impl"] += len(runs)
             for sub, got in runs:
                 cfg = {"prog": c["prog"], "block": c["o"] + sub}
